@@ -121,6 +121,9 @@ func genBatchWalk(r *rand.Rand, n int) []Step {
 				s["route"], s["din"] = []any{float64(1), float64(2)}, "uatom"
 			case 1:
 				s["route"], s["din"] = []any{float64(2), float64(1)}, "uelys"
+			case 2:
+				pid := float64(1 + r.Intn(2))
+				s["route"], s["din"] = []any{pid, pid}, "uusdc"
 			default:
 				s["p"], s["din"] = float64(1+r.Intn(2)), pick(r, "uusdc", "")
 			}
